@@ -177,11 +177,15 @@ def _walk_strict(e):
 
 
 def _local_callee(prog, n):
-    if n.get('k') != 'Call' or n.get('kind') not in ('func', None):
+    if n.get('k') != 'Call':
+        return None
+    if n.get('kind') == 'method':
+        # a helper method is only folded when it is called on the same object (`this`)
+        if ir.strip(n.get('obj') or {}).get('k') != 'This':
+            return None
+    elif n.get('kind') not in ('func', None):
         return None
     c = n.get('callee') or {}
-    if not c.get('local'):
-        return None
     f = prog.by_sig(c.get('sig'))
     if f is None or not f.d.get('helper'):
         return None
@@ -306,8 +310,29 @@ def _recursive(prog, f):
     return False
 
 
+def known_signatures():
+    import json, os
+    pn = os.path.join(os.path.dirname(os.path.abspath(__file__)), 'param_names.json')
+    try:
+        return set(json.load(open(pn)).keys())
+    except Exception:
+        return None
+
+
+_KNOWN = known_signatures()
+
+
 def is_helper(prog, f):
-    return bool(f.d.get('local')) and f.q not in ANCHORS and not f.is_lambda
+    """A function somebody extracted later: a file-local free function that is not one of the pinned tree's own, or any
+    library function or method (e.g. a small private inline predicate added to a class) whose signature the pinned tree
+    does not have."""
+    if f.is_lambda or f.d.get('ctor') or f.name.startswith('operator') or f.name.startswith('~'):
+        return False
+    if bool(f.d.get('local')) and f.q not in ANCHORS:
+        return True
+    if _KNOWN is not None and f.file.startswith(prog.root) and not f.is_pattern and not f.is_inst and f.sig not in _KNOWN and f.q not in ANCHORS:
+        return True
+    return False
 
 
 def inline_local_helpers(prog):
